@@ -205,6 +205,21 @@ def _task(task):
         t.programs += 1
         if len(classes) >= 2:
             t.nontrivial += 1
+        # a definition is what its public attributes say: after the containers of this (used) definition take over the abstract flags and the
+        # restriction criteria of ANOTHER document with the same containers, it selects structures as that other document prescribes
+        if task["via"] == "xml" and spec["n"] >= 2 and (spec["abstract_bits"] + sum(spec["crits"]) + spec["nest"]) % 5 == 0 and "root_name" not in spec:
+            spec2 = dict(spec, abstract_bits=spec["abstract_bits"] ^ (1 << (spec["n"] - 1)) ^ 1,
+                         crits=tuple((c + 3) % N_CRIT for c in spec["crits"]))
+            try:
+                with case_alarm(60):
+                    doc2 = make_doc(**spec2)
+                    donor = load_doc(doc2)
+                    for name, cont in defn.containers.items():
+                        cont.abstract = donor.containers[name].abstract
+                        cont.restriction_criteria = donor.containers[name].restriction_criteria
+                    check_doc(t, {**spec2, "edited_from": {"abstract_bits": spec["abstract_bits"], "crits": list(spec["crits"])}}, doc2, defn, "xml+edited")
+            except BaseException as e:  # noqa: BLE001
+                t.violation({"kind": "check-aborted", "exc": type(e).__name__, "part": "edited"}, {"spec": spec2}, observed=str(e)[:300])
     if task["specs"]:
         t.sample(task["specs"][len(task["specs"]) // 2])
     return t
@@ -257,7 +272,8 @@ def run(ctx):
         "bound": (f"all parent vectors with <= {3 if ctx.quick else 4} containers x 10 criteria per child edge (APID==1, APID==2, APID!=1, SEL<2, two-comparison list, "
                   "boolean expression, no RestrictionCriteria, two-parameter condition with mixed raw/calibrated selectors, nested AND/OR groups, a text discriminator with a significant trailing blank) x abstract flag per node x nesting {none, shared nested container referenced from two nodes, nested "
                   "inside the root, double reference, diamond, a stand-alone container listed first that embeds the root} x document order {parents first, children first} x header naming {conventional, other}; packets APID 0..3 x SEL 0..3; "
-                  "parse_ccsds_packet and the generator with and without error reporting; every 11th document also built from objects"),
+                  "parse_ccsds_packet and the generator with and without error reporting; every 11th document also built from objects; "
+                  "about every fifth loaded definition is then edited in place (abstract flags and restriction criteria taken from another document) and checked against that document"),
         "rule": "one evaluation = one packet through one API; distinct non-trivial = documents whose 16 packets reached >= 2 outcome classes",
     }
     return {"level": LEVEL, "tally": tally, "coverage": coverage,
@@ -268,6 +284,12 @@ def replay(case):
     spec = dict(case["spec"])
     spec["parents"] = tuple(spec["parents"])
     spec["crits"] = tuple(spec["crits"])
+    if "edited_from" in spec:
+        # the violation was observed on a definition edited in place: rebuild the original specification and let the task edit it again
+        ef = spec.pop("edited_from")
+        spec = dict(spec, abstract_bits=ef["abstract_bits"], crits=tuple(ef["crits"]))
+        t = _task({"specs": [spec], "via": "xml"})
+        return next((v for v in t.violations if v["case"].get("packet") == case.get("packet") and v["case"].get("via") == "xml+edited"), None)
     t = _task({"specs": [spec], "via": case.get("via", "xml")})
     for v in t.violations:
         if v["case"].get("packet") == case.get("packet"):
@@ -280,6 +302,7 @@ def repro_py(case):
     spec = dict(case["spec"])
     spec["parents"] = tuple(spec["parents"])
     spec["crits"] = tuple(spec["crits"])
+    spec.pop("edited_from", None)
     doc = make_doc(**spec)
     return ("import io\nfrom space_packet_parser.xtce.definitions import XtcePacketDefinition\n"
             f"xml = {render_xml(doc)!r}\nd = XtcePacketDefinition.from_xtce(io.BytesIO(xml), root_container_name={doc.root!r})\n"
